@@ -13,12 +13,12 @@ git -C /repo worktree add -q --detach $wt HEAD || exit 2
 res=$dst/result.txt; : > $res
 demo=$(ls $dst/*_test.go | head -1)
 cp $demo $wt/$pkg/zz_seeded_demo_test.go
-( cd $wt && go test -vet=off -count=1 ./$pkg/ >/dev/null 2>&1 ) && echo "demo without change: PASS" >> $res || echo "demo without change: FAIL (unexpected)" >> $res
+( cd $wt && go test $DEMO_TAGS -vet=off -count=1 ./$pkg/ >/dev/null 2>&1 ) && echo "demo without change: PASS" >> $res || echo "demo without change: FAIL (unexpected)" >> $res
 ( cd $wt && git apply $dst/patch.diff ) || { echo "patch does not apply" >> $res; }
 rm $wt/$pkg/zz_seeded_demo_test.go
 ( cd $wt && go build ./... && go test -vet=off -count=1 ./... >/dev/null 2>&1 ) && echo "existing suite with change: green" >> $res || echo "existing suite with change: RED (change rejected)" >> $res
 cp $demo $wt/$pkg/zz_seeded_demo_test.go
-( cd $wt && go test -vet=off -count=1 ./$pkg/ >/dev/null 2>&1 ) && echo "demo with change: PASS (unexpected)" >> $res || echo "demo with change: FAIL" >> $res
+( cd $wt && go test $DEMO_TAGS -vet=off -count=1 ./$pkg/ >/dev/null 2>&1 ) && echo "demo with change: PASS (unexpected)" >> $res || echo "demo with change: FAIL" >> $res
 git -C /repo worktree remove --force $wt
 # now against the checks
 if git -C /repo apply --check $dst/patch.diff 2>/dev/null; then
